@@ -62,3 +62,93 @@ if __name__ == "__main__":
     print(len(o), "associations;", sum(1 for x in o if not x["ok"]), "wrong;", len(p), "problems")
     for x in [x for x in o if not x["ok"]][:5] + p[:5]:
         print(x)
+
+
+def enum_variants(ix, ctx, ty):
+    """variant names of a generated login enum (simple `pub enum T { A, B, … }` or the synthesised enums with payloads)"""
+    p = ix.defs.get((ctx, ty))
+    if p is None:
+        return None
+    src = ix.src(p)
+    m = re.search(r"pub enum " + ty + r" \{\n(.*?)\n\}", src, re.S)
+    if not m:
+        return None
+    return set(re.findall(r"(?m)^    (\w+)(?:,| \{| \()", m.group(1) + "\n"))
+
+
+def conversion_tables():
+    """T-gen of the enum conversion tables of the hand-written CollectiveMessage impls: every `match` of a `from_version_N` (lift) must map an
+    enumerator to the enumerator of the same name; every `match` of a `to_version_N` (lower) must do so for each enumerator the older version
+    has, explicitly (a wildcard arm may only cover enumerators the older version lacks).  Then lowering a lifted value is the identity on
+    these fields, enumerator by enumerator — the first sentence of C14 for the enum-valued members."""
+    ix = rust_codec.Index()
+    root = os.path.join(rust_codec.REPO, "wow_login_messages/src/collective")
+    out, problems = [], []
+    for f in sorted(os.listdir(root)):
+        if f == "mod.rs" or not f.endswith(".rs"):
+            continue
+        src = open(os.path.join(root, f)).read()
+        aliases = dict(re.findall(r"(?m)^type (\w+) =\s*([\w:]+);", src))
+
+        def home(alias):
+            t = aliases.get(alias)
+            m = re.fullmatch(r"crate::version_(\d)::(\w+)", t or "")
+            return (f"login{m.group(1)}", m.group(2)) if m else None
+        for fm in re.finditer(r"(?m)^    fn (from_version_(\d)|to_version_(\d))\(", src):
+            fn = fm.group(1)
+            lift = fn.startswith("from")
+            # function body: up to the next `\n    }\n`
+            end = src.find("\n    }\n", fm.end())
+            body = src[fm.end():end]
+            for mm in re.finditer(r"match ([\w.&*]+) \{", body):
+                # the match body by brace matching; arms read on the whitespace-collapsed text (patterns may carry a payload `{ a, b, .. }`)
+                i = mm.end() - 1
+                depth, j = 0, i
+                while j < len(body):
+                    if body[j] == "{":
+                        depth += 1
+                    elif body[j] == "}":
+                        depth -= 1
+                        if depth == 0:
+                            break
+                    j += 1
+                mbody = " ".join(body[i + 1:j].split())
+                arms = re.findall(r"(?:^|, |\}, |\} )(\w+)::(\w+)(?: \{[^{}]*\})? => (\w+)::(\w+)", mbody)
+                wild = re.search(r"(?:^|, |\}, |\} )_ =>", mbody) is not None
+                if not arms:
+                    continue
+                src_alias, dst_alias = arms[0][0], arms[0][2]
+                hs, hd = home(src_alias), home(dst_alias)
+                if hs is None or hd is None:
+                    continue
+                vs, vd = enum_variants(ix, *hs), enum_variants(ix, *hd)
+                if vs is None or vd is None:
+                    continue            # not an enum-to-enum table (flag structs are converted field by field)
+                listed = {}
+                for a, x, b, y in arms:
+                    if a == src_alias and b == dst_alias:
+                        listed[x] = y
+                # arms whose right-hand side is a block: the value the block ends with
+                for bm in re.finditer(r"(?:^|, |\}, |\} )" + src_alias + r"::(\w+)(?: \{[^{}]*\})? => \{", mbody):
+                    k0 = bm.end() - 1
+                    d2, k1 = 0, k0
+                    while k1 < len(mbody):
+                        if mbody[k1] == "{":
+                            d2 += 1
+                        elif mbody[k1] == "}":
+                            d2 -= 1
+                            if d2 == 0:
+                                break
+                        k1 += 1
+                    ends = re.findall(dst_alias + r"::(\w+)", mbody[k0:k1])
+                    if ends:
+                        listed.setdefault(bm.group(1), ends[-1])
+                for x in sorted(vs):
+                    if x in vd:
+                        ok = listed.get(x) == x
+                        out.append({"file": f, "fn": fn, "enum": hs[1], "enumerator": x, "maps_to": listed.get(x, "_ (wildcard)" if wild else None), "ok": ok})
+                    elif lift:
+                        out.append({"file": f, "fn": fn, "enum": hs[1], "enumerator": x, "maps_to": listed.get(x), "ok": False})
+        if "macro_rules!" in src:
+            problems.append({"file": f, "fn": "*", "problem": "conversion written with a local macro: the tables cannot be read arm by arm"})
+    return out, problems
